@@ -16,7 +16,7 @@ func init() {
 	Registry["C03"] = func(r *Run) *core.Report { return mapProtocol(r, "C03", 0) }
 	Registry["C04"] = func(r *Run) *core.Report { return mapProtocol(r, "C04", 1) }
 	expl := func(which, p1 string) string {
-		return "Linearizability of " + which + " is NOT decided (it quantifies over interleavings). Decided, on every CFG path, are the protocol-shape obligations without which this design cannot be linearizable: " + p1 + "; (P2) unique value pointers / immutable entries (slot pointers are per-call allocations, published entries are never written); (P3) after taking the bucket lock a writer touches the bucket only after seeing the resize flag clear and then the table pointer unchanged, in that order; (P4) in resize all bucket copies precede the single publishing store of the very table they filled, which precedes clearing the flag, and the table pointer is stored nowhere else except the constructor; (P5) bucket words are written only under the bucket lock: in the compute core on every path, and at every other write of a bucket word - atomic store, swap, add or compare-and-swap, or plain - in any function reachable from the public API, unless the bucket written is not yet published (the copy's destination, a new overflow bucket); (P6) the copy runs under the source bucket's lock and leaves the source intact; (P7) Clear's resize request reaches the publishing store of a fresh table on every path to its return (it cannot be dropped); (P8) bucket array, mask and seed of an attempt come from one table value; (P10) a packed bucket word (meta / top-hash) is rewritten from a read of the same bucket's word; (P11) the lock-free lookup reports a key absent only on a path whose last chain-link test saw 'next == nil'; (P3a/b) the resize flag goes 0 -> one non-zero constant -> 0 and every test of it tells that constant from 0, and the table re-check compares pointer identity; (P12) packed-word arithmetic is carried out in 64 bits; (P14) a slot write pairs a bucket with an index found in that very bucket (both used directly, or remembered together; one index value, one bucket value)."
+		return "Linearizability of " + which + " is NOT decided (it quantifies over interleavings). Decided, on every CFG path, are the protocol-shape obligations without which this design cannot be linearizable: " + p1 + " - decided for Load and for every other function reachable from the API that reads a bucket slot outside the chain's lock and returns a (value, found) pair; (P2) unique value pointers / immutable entries (slot pointers are per-call allocations, published entries are never written); (P3) after taking the bucket lock a writer touches the bucket only after seeing the resize flag clear and then the table pointer unchanged, in that order, and a bucket-word write justified by the lock occurs in the compute core (or in a function only it calls) and nowhere else - the validation is decided on the core's paths; (P4) in resize all bucket copies precede the single publishing store of the very table they filled, which precedes clearing the flag, and the table pointer is stored nowhere else except the constructor; (P5) bucket words are written only under the bucket lock: in the compute core on every path, and at every other write of a bucket word - atomic store, swap, add or compare-and-swap, or plain - in any function reachable from the public API, unless the bucket written is not yet published (the copy's destination, a new overflow bucket); (P6) the copy runs under the source bucket's lock and leaves the source intact; (P7) Clear's resize request reaches the publishing store of a fresh table on every path to its return (it cannot be dropped); (P8) bucket array, mask and seed of an attempt come from one table value; (P10) a packed bucket word (meta / top-hash) is rewritten from a read of the same bucket's word; (P11) the lock-free lookup reports a key absent only on a path whose last chain-link test saw 'next == nil'; (P3a/b) the resize flag goes 0 -> one non-zero constant -> 0 and every test of it tells that constant from 0, and the table re-check compares pointer identity; (P12) packed-word arithmetic is carried out in 64 bits; (P14) a slot write pairs a bucket with an index found in that very bucket (both used directly, or remembered together; one index value, one bucket value)."
 	}
 	Metas["C03"] = Meta{Explanation: expl("Map", "(P1) the lock-free reader returns a value only after reading the value pointer, then the key pointer, matching the key, and re-reading the same value slot unchanged"),
 		Rule:        "one obligation per (rule, function/specialisation, exit | site); non-trivial = decided by exploring the product of the CFG with the protocol automaton or by a provenance query",
@@ -36,6 +36,7 @@ func mapProtocol(r *Run, prop string, idx int) *core.Report {
 	} else {
 		p1Entry(r, rep, prop, mm)
 	}
+	p1Elsewhere(r, rep, prop, mm)
 	p2Unique(r, rep, prop, mm)
 	p3p5Core(r, rep, prop, mm)
 	p5Everywhere(r, rep, prop, mm)
@@ -389,7 +390,10 @@ type snapState struct {
 }
 
 func p1Snapshot(r *Run, rep *core.Report, prop string, mm *core.MapModel) {
-	f := mm.Methods["Load"]
+	p1SnapshotOn(r, rep, prop, mm, mm.Methods["Load"])
+}
+
+func p1SnapshotOn(r *Run, rep *core.Report, prop string, mm *core.MapModel, f *ssa.Function) {
 	rep.Fn(fn(f))
 	valueField, keyField := "", ""
 	// the value slot is the one whose loaded pointer is dereferenced into the returned value; the key slot the one compared with the key
@@ -500,7 +504,7 @@ func p1Snapshot(r *Run, rep *core.Report, prop string, mm *core.MapModel) {
 			rep.Fail(prop+".P1", fn(f)+" found-return", r.P.InstrPos(ret), rs.msg, m.Trace(rs.at)...)
 		}
 	}
-	rep.MinCount(prop+".P1", "found-returns of the lock-free reader", len(results), 1)
+	rep.MinCount(prop+".P1", p1Label(mm, f), len(results), 1)
 }
 
 func atomicAddrOf(v ssa.Value) ssa.Value {
@@ -539,7 +543,10 @@ func derivesFrom(v, base ssa.Value) bool {
 // ---- P1': reader over immutable entries ----
 
 func p1Entry(r *Run, rep *core.Report, prop string, mm *core.MapModel) {
-	f := mm.Methods["Load"]
+	p1EntryOn(r, rep, prop, mm, mm.Methods["Load"])
+}
+
+func p1EntryOn(r *Run, rep *core.Report, prop string, mm *core.MapModel, f *ssa.Function) {
 	rep.Fn(fn(f))
 	type st struct {
 		E   ssa.Value // the atomically loaded entry pointer (converted)
@@ -604,7 +611,162 @@ func p1Entry(r *Run, rep *core.Report, prop string, mm *core.MapModel) {
 	for ret, rs := range results {
 		rep.Check(rs.ok, prop+".P1", fn(f)+" found-return", r.P.InstrPos(ret), "returns the value field of the single atomically loaded entry whose key compared equal", rs.msg, m.Trace(rs.at)...)
 	}
-	rep.MinCount(prop+".P1", "found-returns of the lock-free reader", len(results), 1)
+	rep.MinCount(prop+".P1", p1Label(mm, f), len(results), 1)
+}
+
+func p1Label(mm *core.MapModel, f *ssa.Function) string {
+	if f == mm.Methods["Load"] {
+		return "found-returns of the lock-free reader"
+	}
+	return "found-returns of the lock-free reader " + fn(f)
+}
+
+// p1Elsewhere: P1 is a rule about *the* lock-free reader. Every other place that reads a bucket slot without the
+// chain's lock (and not on an unpublished bucket) and returns a (value, found) pair is a second lock-free reader and
+// is judged by the same rule - a fast path that skips the snapshot returns another key's value.
+// Functions reached only through Load are part of the reader (the machine follows them).
+func p1Elsewhere(r *Run, rep *core.Report, prop string, mm *core.MapModel) {
+	readers, others := secondReaders(r, mm)
+	for _, f := range readers {
+		// a reader of its own: same rule
+		if mm.EntryT == "" {
+			p1SnapshotOn(r, rep, prop, mm, f)
+		} else {
+			p1EntryOn(r, rep, prop, mm, f)
+		}
+	}
+	for _, n := range others {
+		// any other shape (a presence test, a scan that returns nothing) hands out no value: what it *does* with what it
+		// saw is judged by the write rules (P5: slot writes only under the lock)
+		rep.Note(prop + ".P1: " + n + " and returns no (value, found) pair: not a reader in the sense of P1")
+	}
+}
+
+// lockedWriteInCore: the write through addr in f, justified by the bucket lock, belongs to the compute core: f is the
+// core (or called only by it), or addr derives from a parameter of f and at every call site the argument is an
+// unpublished bucket (the copy's destination: nothing to validate) or the caller is, recursively, in the core.
+func lockedWriteInCore(r *Run, inCore map[*ssa.Function]bool, f *ssa.Function, addr ssa.Value, depth int) bool {
+	if inCore[f] {
+		return true
+	}
+	if depth > 3 {
+		return false
+	}
+	roots := bucketRoots(r, addr)
+	if len(roots) == 0 {
+		return false
+	}
+	for rt := range roots {
+		prm, isP := rt.(*ssa.Parameter)
+		if !isP {
+			return false
+		}
+		idx := paramIndexOf(f, prm)
+		sites := core.CallSitesOf(r.P.Funcs, f)
+		if idx < 0 || len(sites) == 0 {
+			return false
+		}
+		for _, site := range sites {
+			if idx >= len(site.Common().Args) {
+				return false
+			}
+			arg := site.Common().Args[idx]
+			if fi := unpublishedAt(r, site.Parent(), arg, site, 0); fi.OK {
+				continue
+			}
+			if !lockedWriteInCore(r, inCore, site.Parent(), arg, depth+1) {
+				return false
+			}
+		}
+	}
+	return true
+}
+
+// onlyCalledFrom: root, its closures, and the functions every call of which is made by one of those (transitively).
+func onlyCalledFrom(r *Run, reach map[*ssa.Function]bool, root *ssa.Function) map[*ssa.Function]bool {
+	covered := map[*ssa.Function]bool{root: true}
+	for changed := true; changed; {
+		changed = false
+		for _, f := range r.P.Funcs {
+			if covered[f] || !reach[f] || f.Blocks == nil {
+				continue
+			}
+			if f.Parent() != nil {
+				if covered[f.Parent()] {
+					covered[f] = true
+					changed = true
+				}
+				continue
+			}
+			sites := core.CallSitesOf(r.P.Funcs, f)
+			if len(sites) == 0 {
+				continue
+			}
+			all := true
+			for _, st := range sites {
+				if !covered[st.Parent()] {
+					all = false
+				}
+			}
+			if all {
+				covered[f] = true
+				changed = true
+			}
+		}
+	}
+	return covered
+}
+
+// secondReaders: functions other than Load (and the helpers only Load calls) that read a bucket slot of this map
+// without the chain's lock and not on an unpublished bucket; those with the reader's result shape (value, found) are
+// returned as functions, the others described.
+func secondReaders(r *Run, mm *core.MapModel) (readers []*ssa.Function, others []string) {
+	load := mm.Methods["Load"]
+	mine := map[string]bool{}
+	for _, b := range mm.BucketT {
+		mine[b] = true
+	}
+	reach := apiReachable(r)
+	// functions every call of which is made by the reader itself
+	covered := onlyCalledFrom(r, reach, load)
+	for _, f := range r.P.Funcs {
+		if !reach[f] || covered[f] || f.Blocks == nil || r.M.Acquire[f] || r.M.Release[f] {
+			continue
+		}
+		var first ssa.Instruction
+		var word core.AddrPath
+		core.Instrs(f, func(in ssa.Instruction) {
+			c, ok := in.(*ssa.Call)
+			if !ok || first != nil {
+				return
+			}
+			op, addr, ok := core.AtomicOp(c)
+			if !ok || op != "Load" {
+				return
+			}
+			k, a := slotKind(r, addr)
+			if k != "slot" || !mine[a.Owner] {
+				return
+			}
+			if fi := unpublishedAt(r, f, addr, in, 0); fi.OK {
+				return
+			}
+			if ok, _ := lockCovers(r, f, addr, in, 0); ok {
+				return
+			}
+			first, word = in, a
+		})
+		if first == nil {
+			continue
+		}
+		res := f.Signature.Results()
+		if res.Len() == 2 && typeName(res.At(1).Type()) == "bool" {
+			readers = append(readers, f)
+			continue
+		}
+		others = append(others, fn(f)+" reads "+word.Key()+" lock-free at "+r.P.InstrPos(first))
+	}
+	return readers, others
 }
 
 // ---- P2: uniqueness / immutability (borrowed from the access rules) ----
@@ -652,6 +814,8 @@ func p5Everywhere(r *Run, rep *core.Report, prop string, mm *core.MapModel) {
 		mine[b] = true
 	}
 	reach := apiReachable(r)
+	// the compute core and what only it calls: the one place whose locked writes are validated (P3)
+	inCore := onlyCalledFrom(r, reach, mm.Core)
 	n := 0
 	for _, f := range r.P.Funcs {
 		if !reach[f] || r.M.Acquire[f] || r.M.Release[f] || f.Blocks == nil {
@@ -703,6 +867,13 @@ func p5Everywhere(r *Run, rep *core.Report, prop string, mm *core.MapModel) {
 				ok = true
 			} else {
 				ok, why = lockCovers(r, f, addr, in, 0)
+				if ok && !lockedWriteInCore(r, inCore, f, addr, 0) {
+					// a second locked writer: the lock alone is not enough - a resize copies a chain under this very lock and
+					// then retires the table, so a writer must see the flag clear and the table unchanged after locking; that
+					// is decided on the paths of the compute core only
+					rep.Fail(prop+".P3", fmt.Sprintf("%s %s of %s under the lock, outside the compute core", fn(f), op, a.Key()), r.P.InstrPos(in),
+						"a bucket word of a published table is written under the bucket lock by a function that is not the compute core ("+fn(mm.Core)+") nor called only by it: the post-lock validation (resize flag clear, then table pointer unchanged) is decided for the core's paths only, and a locked writer that skips it writes into a chain that is being copied or into a retired table (a lost update)")
+				}
 			}
 			if cons == "" {
 				if !ok {
